@@ -79,8 +79,6 @@ func main() {
 			// refuse what the scheduler cannot model
 			ast.Inspect(f, func(nd ast.Node) bool {
 				switch x := nd.(type) {
-				case *ast.SelectStmt:
-					fatal("%s: select at %s is not supported by the scheduler", p, pkg.Fset.Position(nd.Pos()))
 				case *ast.RangeStmt:
 					if tv, ok := pkg.TypesInfo.Types[x.X]; ok {
 						if _, isChan := tv.Type.Underlying().(*types.Chan); isChan && x.Tok != token.DEFINE && x.Key != nil {
@@ -114,8 +112,20 @@ func main() {
 				return c
 			}
 			recv2 := map[ast.Expr]bool{}
+			inComm := map[ast.Node]bool{} // communication operations of select clauses: rewritten with the select
 			ast.Inspect(f, func(nd ast.Node) bool {
 				switch x := nd.(type) {
+				case *ast.SelectStmt:
+					for _, cl := range x.Body.List {
+						switch cm := cl.(*ast.CommClause).Comm.(type) {
+						case *ast.SendStmt:
+							inComm[cm] = true
+						case *ast.ExprStmt:
+							inComm[cm.X] = true
+						case *ast.AssignStmt:
+							inComm[cm.Rhs[0]] = true
+						}
+					}
 				case *ast.AssignStmt:
 					if len(x.Lhs) == 2 && len(x.Rhs) == 1 {
 						if u, ok := x.Rhs[0].(*ast.UnaryExpr); ok && u.Op == token.ARROW {
@@ -133,8 +143,60 @@ func main() {
 			})
 			astutil.Apply(f, nil, func(cur *astutil.Cursor) bool {
 				switch x := cur.Node().(type) {
+				case *ast.SelectStmt:
+					if _, labelled := cur.Parent().(*ast.LabeledStmt); labelled {
+						fatal("%s: labelled select at %s is not supported", p, pkg.Fset.Position(x.Pos()))
+					}
+					n++
+					var decls []ast.Stmt
+					var args []ast.Expr
+					var clauses []ast.Stmt
+					hasDefault := "false"
+					idx := 0
+					for _, cl := range x.Body.List {
+						cc := cl.(*ast.CommClause)
+						if cc.Comm == nil {
+							hasDefault = "true"
+							clauses = append(clauses, &ast.CaseClause{List: []ast.Expr{&ast.UnaryExpr{Op: token.SUB, X: &ast.BasicLit{Kind: token.INT, Value: "1"}}}, Body: cc.Body})
+							continue
+						}
+						cid := ast.NewIdent(fmt.Sprintf("__sc%d_%d", n, idx))
+						var pre []ast.Stmt
+						switch cm := cc.Comm.(type) {
+						case *ast.SendStmt:
+							vid := ast.NewIdent(fmt.Sprintf("__sv%d_%d", n, idx))
+							decls = append(decls, &ast.AssignStmt{Lhs: []ast.Expr{cid, vid}, Tok: token.DEFINE, Rhs: []ast.Expr{cm.Chan, cm.Value}})
+							args = append(args, shimCall("SelSend", cid, vid))
+						default:
+							var recv *ast.UnaryExpr
+							var asg *ast.AssignStmt
+							if es, ok := cm.(*ast.ExprStmt); ok {
+								recv = es.X.(*ast.UnaryExpr)
+							} else {
+								asg = cm.(*ast.AssignStmt)
+								recv = asg.Rhs[0].(*ast.UnaryExpr)
+							}
+							rid, oid := ast.NewIdent(fmt.Sprintf("__sr%d_%d", n, idx)), ast.NewIdent(fmt.Sprintf("__so%d_%d", n, idx))
+							decls = append(decls,
+								&ast.AssignStmt{Lhs: []ast.Expr{cid}, Tok: token.DEFINE, Rhs: []ast.Expr{recv.X}},
+								&ast.AssignStmt{Lhs: []ast.Expr{rid, oid}, Tok: token.DEFINE, Rhs: []ast.Expr{shimCall("ZeroRecv", cid)}})
+							args = append(args, shimCall("SelRecv", cid, &ast.UnaryExpr{Op: token.AND, X: rid}, &ast.UnaryExpr{Op: token.AND, X: oid}))
+							if asg != nil {
+								rhs := []ast.Expr{rid}
+								if len(asg.Lhs) == 2 {
+									rhs = append(rhs, oid)
+								}
+								pre = append(pre, &ast.AssignStmt{Lhs: asg.Lhs, Tok: asg.Tok, Rhs: rhs})
+							}
+						}
+						clauses = append(clauses, &ast.CaseClause{List: []ast.Expr{&ast.BasicLit{Kind: token.INT, Value: strconv.Itoa(idx)}}, Body: append(pre, cc.Body...)})
+						idx++
+					}
+					sel := shimCall("Select", append([]ast.Expr{ast.NewIdent(hasDefault)}, args...)...)
+					cur.Replace(&ast.BlockStmt{List: append(decls, &ast.SwitchStmt{Tag: sel, Body: &ast.BlockStmt{List: clauses}})})
+					changed, needShim = true, true
 				case *ast.UnaryExpr:
-					if x.Op == token.ARROW {
+					if x.Op == token.ARROW && !inComm[x] {
 						n++
 						if recv2[x] {
 							cur.Replace(shimCall("ChanRecv2", x.X))
@@ -144,6 +206,9 @@ func main() {
 						changed, needShim = true, true
 					}
 				case *ast.SendStmt:
+					if inComm[x] {
+						break
+					}
 					n++
 					cid := ast.NewIdent(fmt.Sprintf("__vc%d", n))
 					lhs, rhs := []ast.Expr{cid}, []ast.Expr{x.Chan}
@@ -293,6 +358,7 @@ func main() {
 		overlay[filepath.Join(repo, "util/vsync", e.Name())] = filepath.Join(shim, "vsync", e.Name())
 	}
 	overlay[filepath.Join(repo, "container/factory/zz_factory_verif.go")] = filepath.Join(shim, "factory", "factory_verif.go")
+	overlay[filepath.Join(repo, "syslog/zz_reset_verif.go")] = filepath.Join(shim, "syslog", "reset_verif.go")
 	b, _ := json.MarshalIndent(map[string]any{"Replace": overlay}, "", " ")
 	if err := os.WriteFile(filepath.Join(out, "overlay.json"), b, 0o644); err != nil {
 		fatal("%v", err)
